@@ -141,7 +141,7 @@ var DefaultWeights = map[string]int{
 func genWLs(t *rapid.T, hp *HistoryParams, topo Topo) ([]WL, []PoolObj) {
 	kinds := hp.Kinds
 	if len(kinds) == 0 {
-		kinds = []string{"sts", "dp", "dp", "cr", "nscr", "bare", "dppool"}
+		kinds = []string{"sts", "dp", "dp", "cr", "nscr", "bare", "dppool", "stspool"}
 	}
 	policies := hp.Policies
 	if len(policies) == 0 {
@@ -157,6 +157,11 @@ func genWLs(t *rapid.T, hp *HistoryParams, topo Topo) ([]WL, []PoolObj) {
 			wl.Replicas = 2
 		}
 		switch k {
+		case "stspool", "crpool":
+			// a statefulset / custom-resource pod may carry the ip-pool annotation too: its IP is keyed pool__<pool>_<pod key> and is
+			// never released; no Pool object (sizes only concern deployments)
+			wl.Kind = map[string]string{"stspool": "sts", "crpool": "cr"}[k]
+			wl.Pool = fmt.Sprintf("q%d", rapid.IntRange(0, 1).Draw(t, "stsPoolName"))
 		case "dppool":
 			wl.Kind = "dp"
 			wl.Pool = fmt.Sprintf("p%d", rapid.IntRange(0, 1).Draw(t, "poolName"))
